@@ -4,11 +4,11 @@ package chk
 
 import (
 	"fmt"
-	"strings"
 	"go/constant"
 	"go/token"
 	"go/types"
 	"sort"
+	"strings"
 
 	"golang.org/x/tools/go/ssa"
 )
@@ -948,4 +948,287 @@ func init() {
 			}
 		}
 	}
+}
+
+func init() {
+	Registry["WLINT"] = func(c *Ctx, r *Report) {
+		for _, cc := range []*Ctx{c} {
+			fmt.Println("make-append sites", ruleMakeThenAppend(cc, r, nil))
+			fmt.Println("narrow accumulators", ruleNarrowAccumulator(cc, r, "W-NARROW-ACC", nil))
+			fmt.Println("single-field loops", ruleSiblingSlices(cc, r, nil))
+			fmt.Println("decoders", ruleReturnsParam(cc, r, map[string]bool{"avc": true, "hevc": true, "sei": true, "aac": true, "av1": true, "mp4": true}))
+			fmt.Println("field ranges", ruleDeadRange(cc, r, nil))
+			fmt.Println("range loops", ruleIneffectiveRangeAssign(cc, r, nil))
+		}
+		for _, o := range r.Obls {
+			fmt.Println(o.Status, o.Key, o.Pos)
+		}
+		fc, err := loadFixture()
+		fmt.Println("fixture", err)
+		if fc != nil {
+			r2 := NewReport("f")
+			ruleMakeThenAppend(fc, r2, nil)
+			ruleNarrowAccumulator(fc, r2, "W-NARROW-ACC", nil)
+			ruleSiblingSlices(fc, r2, nil)
+			ruleReturnsParam(fc, r2, map[string]bool{"mp4": true})
+			debugLint = true
+			ruleDeadRange(fc, r2, nil)
+			debugLint = false
+			ruleIneffectiveRangeAssign(fc, r2, nil)
+			for _, o := range r2.Obls {
+				fmt.Println("FIXTURE", o.Status, o.Key)
+			}
+		}
+	}
+}
+
+// nilableGetter: a repository function with a single pointer result that returns a literal nil on some path.
+func nilableGetter(g *ssa.Function) bool {
+	if g == nil || len(g.Blocks) == 0 || g.Signature.Results().Len() != 1 {
+		return false
+	}
+	if _, ok := g.Signature.Results().At(0).Type().Underlying().(*types.Pointer); !ok {
+		return false
+	}
+	hasNil, hasVal := false, false
+	for _, b := range g.Blocks {
+		for _, ins := range b.Instrs {
+			if ret, ok := ins.(*ssa.Return); ok {
+				if k, isC := ret.Results[0].(*ssa.Const); isC && k.Value == nil {
+					hasNil = true
+				} else {
+					hasVal = true
+				}
+			}
+		}
+	}
+	return hasNil && hasVal
+}
+
+// ruleGNILCalls — the result of a getter that can return nil (LastSegment, LastFragment, GetTrex, …) is
+// dereferenced only after a nil test.
+func ruleGNILCalls(c *Ctx, r *Report, scope map[*ssa.Function]bool, allowed map[string]string) int {
+	var fns []*ssa.Function
+	for f := range scope {
+		fns = append(fns, f)
+	}
+	sort.Slice(fns, func(i, j int) bool { return fns[i].String() < fns[j].String() })
+	n := 0
+	seen := map[string]bool{}
+	for _, f := range fns {
+		if f.Synthetic != "" {
+			continue
+		}
+		for _, b := range f.Blocks {
+			for _, ins := range b.Instrs {
+				var base ssa.Value
+				switch x := ins.(type) {
+				case *ssa.FieldAddr:
+					base = x.X
+				case ssa.CallInstruction:
+					com := x.Common()
+					if com.IsInvoke() || len(com.Args) == 0 {
+						continue
+					}
+					g := com.StaticCallee()
+					if g == nil || g.Signature.Recv() == nil || !derefsReceiver(g) {
+						continue
+					}
+					base = com.Args[0]
+				default:
+					continue
+				}
+				call, ok := base.(*ssa.Call)
+				if !ok || !nilableGetter(call.Call.StaticCallee()) {
+					continue
+				}
+				n++
+				key := SSAFuncName(f) + ":" + SSAFuncName(call.Call.StaticCallee()) + "()"
+				if seen[key] {
+					continue
+				}
+				// a dominating nil test of the call's result
+				tested := false
+				hasDominatingTest(call, b, func(cond ssa.Value, truth bool) bool {
+					bo, ok := cond.(*ssa.BinOp)
+					if !ok || (bo.Op != token.EQL && bo.Op != token.NEQ) {
+						return false
+					}
+					var other ssa.Value
+					if k, ok := bo.Y.(*ssa.Const); ok && k.Value == nil {
+						other = bo.X
+					} else if k, ok := bo.X.(*ssa.Const); ok && k.Value == nil {
+						other = bo.Y
+					}
+					if other == ssa.Value(call) && (bo.Op == token.NEQ) == truth {
+						tested = true
+					}
+					return tested
+				})
+				if tested {
+					continue
+				}
+				seen[key] = true
+				if why, ok := allowed[key]; ok {
+					r.OK("G-NIL", key, c.Pos(ins.Pos()), "accepted: "+why)
+					continue
+				}
+				r.Bad("G-NIL", key, c.Pos(ins.Pos()), "the result of "+SSAFuncName(call.Call.StaticCallee())+"(), which returns nil when there is nothing to return, is dereferenced without a nil test")
+			}
+		}
+	}
+	return n
+}
+
+func init() {
+	Registry["WNILCALL"] = func(c *Ctx, r *Report) {
+		entries := entriesC04(c)
+		scope, _ := scopeFrom(c, entries)
+		n := ruleGNILCalls(c, r, scope, nil)
+		fmt.Println("derefs of nilable getter results", n)
+		for _, o := range r.Obls {
+			fmt.Println(o.Status, o.Key, o.Pos)
+		}
+	}
+}
+
+// ruleSegmentInvariant — File.AddChild dereferences LastSegment() / LastFragment() without nil tests. That is
+// sound because (a) startSegmentIfNeeded adds a segment whenever there is none (its AddMediaSegment call is
+// controlled by a test of len(f.Segments)), (b) in the emsg and moof arms the dereferences are dominated by the
+// call of startSegmentIfNeeded and preceded by an AddFragment that is taken when there is no (open) fragment,
+// (c) the mdat arm is only reached right after a moof (O-MDAT).
+func ruleSegmentInvariant(c *Ctx, r *Report) {
+	key := "mp4.File.AddChild:segment-and-fragment-exist"
+	st := c.ssaFunc(r, "G-NIL", "mp4", "File.startSegmentIfNeeded")
+	ac := c.ssaFunc(r, "G-NIL", "mp4", "File.AddChild")
+	if st == nil || ac == nil {
+		return
+	}
+	bad := ""
+	adds := callsIn(st, "File.AddMediaSegment", false)
+	okA := false
+	// every path through startSegmentIfNeeded that does not call AddMediaSegment passes a direct test of
+	// len(f.Segments) against 0 on its non-zero side
+	callBlocks := map[*ssa.BasicBlock]bool{}
+	for _, a := range adds {
+		callBlocks[a.Block()] = true
+	}
+	type edge struct{ from, to *ssa.BasicBlock }
+	cut := map[edge]bool{}
+	for _, b := range st.Blocks {
+		if len(b.Instrs) == 0 {
+			continue
+		}
+		ifi, ok := b.Instrs[len(b.Instrs)-1].(*ssa.If)
+		if !ok {
+			continue
+		}
+		bo, ok := ifi.Cond.(*ssa.BinOp)
+		if !ok || (bo.Op != token.EQL && bo.Op != token.NEQ) {
+			continue
+		}
+		cs, isC := constSet(bo.Y, 0)
+		if !isC || len(cs) != 1 || cs[0] != 0 {
+			continue
+		}
+		call, ok := stripConv(bo.X).(*ssa.Call)
+		if !ok {
+			continue
+		}
+		bi, ok := call.Call.Value.(*ssa.Builtin)
+		if !ok || bi.Name() != "len" || !isDirectFieldLoad(call.Call.Args[0], "File.Segments") {
+			continue
+		}
+		// the successor taken when len != 0
+		nonZero := b.Succs[1]
+		if bo.Op == token.NEQ {
+			nonZero = b.Succs[0]
+		}
+		cut[edge{b, nonZero}] = true
+	}
+	if len(adds) > 0 && len(cut) > 0 && len(st.Blocks) > 0 {
+		seen := map[*ssa.BasicBlock]bool{}
+		stack := []*ssa.BasicBlock{st.Blocks[0]}
+		reachesReturn := false
+		for len(stack) > 0 {
+			x := stack[len(stack)-1]
+			stack = stack[:len(stack)-1]
+			if seen[x] || callBlocks[x] {
+				continue
+			}
+			seen[x] = true
+			if len(x.Instrs) > 0 {
+				if _, isRet := x.Instrs[len(x.Instrs)-1].(*ssa.Return); isRet {
+					reachesReturn = true
+				}
+			}
+			for _, sx := range x.Succs {
+				if !cut[edge{x, sx}] {
+					stack = append(stack, sx)
+				}
+			}
+		}
+		okA = !reachesReturn
+	}
+	if !okA {
+		bad += "startSegmentIfNeeded can return without having called AddMediaSegment on a path that does not establish len(f.Segments) != 0; "
+	}
+	starts := callsIn(ac, "File.startSegmentIfNeeded", false)
+	addFrags := callsIn(ac, "MediaSegment.AddFragment", false)
+	n := 0
+	for _, b := range ac.Blocks {
+		for _, ins := range b.Instrs {
+			call, ok := ins.(*ssa.Call)
+			if !ok {
+				continue
+			}
+			nm := calleeName(call.Common())
+			if !strings.HasSuffix(nm, "File.LastSegment") && !strings.HasSuffix(nm, "MediaSegment.LastFragment") {
+				continue
+			}
+			n++
+			dom := false
+			for _, s := range starts {
+				if instrDominates(s, call) {
+					dom = true
+				}
+			}
+			if !dom {
+				// the mdat arm: relies on O-MDAT
+				continue
+			}
+			if strings.HasSuffix(nm, "MediaSegment.LastFragment") {
+				// the last use in the arm must be preceded by an AddFragment taken when there is no open fragment
+				pre := false
+				for _, af := range addFrags {
+					if instrReaches(af, call) {
+						pre = true
+					}
+				}
+				// the first LastFragment() of the moof arm is itself nil-tested; the later one follows AddFragment
+				if !pre && !resultNilTested(call) {
+					bad += "a LastFragment() result is used without a preceding AddFragment or nil test; "
+				}
+			}
+		}
+	}
+	if n < 4 {
+		bad += fmt.Sprintf("only %d LastSegment/LastFragment calls found in File.AddChild; ", n)
+	}
+	if bad == "" {
+		r.OK("G-NIL", key, c.Pos(ac.Pos()), "startSegmentIfNeeded guarantees a segment, the emsg/moof arms add a fragment before using LastFragment(), the mdat arm follows a moof (O-MDAT)")
+	} else {
+		r.Bad("G-NIL", key, c.Pos(ac.Pos()), bad)
+	}
+}
+
+func resultNilTested(call *ssa.Call) bool {
+	for _, ref := range *call.Referrers() {
+		if bo, ok := ref.(*ssa.BinOp); ok && (bo.Op == token.EQL || bo.Op == token.NEQ) {
+			if k, ok := bo.Y.(*ssa.Const); ok && k.Value == nil {
+				return true
+			}
+		}
+	}
+	return false
 }
